@@ -20,15 +20,20 @@ Output line: the effects in order, `M<hex>` raw message, `L<hex>` auth line, `X`
 
     O <hex>            the pre-repair recursive binary branch on one read: `<n messages> <depth>`
 
-    P <client 0|1> <authenticated 0|1> <script> <read> <read> ...
-                       the COMPOSED model (Proto/Receive.lean `receive`): the framing model over the reads, then C03's
-                       model of `message.parseMessage(raw, [])` (Msg/Message.lean, body codec = C01's code model
-                       `wireCodec`, tables `Gen.Message.tables`) on every delivered frame.
+    P <client 0|1> <authenticated 0|1> <script> <fds> <read> <read> ...
+                       the COMPOSED model (Proto/Receive.lean `recvRun`): the framing model over the reads and, per
+                       delivered frame, the whole of `rawDBusMessageReceived`: C03's model of
+                       `message.parseMessage(raw, self._receivedFDs)` (Msg/Message.lean, body codec = C01's code model
+                       `wireCodec`, tables `Gen.Message.tables`), the slice `_receivedFDs[m.unix_fds:]`, the dispatch on
+                       the message type; an exception of parseMessage escapes dataReceived (`!`, the later frames of that
+                       read stay buffered, no further read).  <fds> = the initial `_receivedFDs`: `-` (empty) or comma
+                       separated integers.
                        -> the output of `R`, then ` || `, then per delivered frame (separated by ` ; `)
-                       `ok type=<n> serial=<n> er=<T|F> as=<T|F> of=<otherFlags> path=<attr> interface=.. member=..
-                       error_name=.. reply_serial=.. destination=.. sender=.. signature=.. unix_fds=.. body=<N | value>`
-                       or `err <ExceptionName>`;  attr = N | s<strhex> | i<dec> | b0 | b1 | d<16 hex> | ?other;
-                       value in the syntax of Driver/Val.lean.  (`-` when nothing was delivered.)
+                       `ok hook=<call|ret|err|sig|none> type=<n> serial=<n> er=<T|F> as=<T|F> of=<otherFlags> path=<attr>
+                       interface=.. member=.. error_name=.. reply_serial=.. destination=.. sender=.. signature=..
+                       unix_fds=.. body=<N | value>` or `err <ExceptionName>` (`-` when nothing was delivered), then
+                       ` || fds=<final _receivedFDs>`;  attr = N | s<strhex> | i<dec> | b0 | b1 | d<16 hex> | ?other;
+                       value in the syntax of Driver/Val.lean.
 -/
 open Txdbus.Proto
 
@@ -102,11 +107,27 @@ def tf (b : Bool) : String := if b then "T" else "F"
 /-- Step budget of the body codec (as Driver/C03.lean, Driver/WireOps.lean). -/
 def wFuel : Nat := 300
 
-def showParsed (r : Except Txdbus.PyErr (Txdbus.Msg.Msg Txdbus.PyVal)) : String :=
+def hookName : Option Hook → String
+  | some .methodCallReceived => "call"
+  | some .methodReturnReceived => "ret"
+  | some .errorReceived => "err"
+  | some .signalReceived => "sig"
+  | none => "none"
+
+def showFds (l : List Txdbus.PyVal) : String :=
+  if l.isEmpty then "-" else ",".intercalate (l.map fun v => match v with
+    | .int _ n => toString n
+    | _ => "?")
+
+def parseFds (t : String) : Option (List Txdbus.PyVal) :=
+  if t == "-" then some []
+  else ((t.splitOn ",").mapM String.toInt?).map fun l => l.map (Txdbus.PyVal.int .plain)
+
+def showParsed (r : Except Txdbus.PyErr (Option Hook × Txdbus.Msg.Msg Txdbus.PyVal)) : String :=
   match r with
   | .error e => "err " ++ Driver.pyErrName e
-  | .ok m =>
-    "ok type=" ++ toString (Txdbus.Gen.Message.tables.messageType m.cls) ++ " serial=" ++ toString m.serial ++
+  | .ok (h, m) =>
+    "ok hook=" ++ hookName h ++ " type=" ++ toString (Txdbus.Gen.Message.tables.messageType m.cls) ++ " serial=" ++ toString m.serial ++
     " er=" ++ tf m.expectReply ++ " as=" ++ tf m.autoStart ++ " of=" ++ toString m.otherFlags ++
     String.join (attrNames.map fun (a, n) => " " ++ n ++ "=" ++ attrStr (m.attrs a)) ++
     " body=" ++ (match m.body with
@@ -121,16 +142,17 @@ def showState (s : St (List AuthRes)) (effs : List Effect) : String :=
 
 def handle (line : String) : String :=
   match Driver.words line with
-  | "P" :: c :: a :: sc :: reads =>
-    match parseScript sc, mapMTR parseHex reads [] with
-    | some script, some rs =>
+  | "P" :: c :: a :: sc :: fd :: reads =>
+    match parseScript sc, parseFds fd, mapMTR parseHex reads [] with
+    | some script, some fds, some rs =>
       let s0 : St (List AuthRes) :=
         { client := c == "1", buffer := [], nextMsgLen := 0, bigEndian := false,
           authenticated := a == "1", firstByte := true, closed := false, auth := script }
-      let r := receive Txdbus.Gen.Message.tables (Txdbus.Msg.wireCodec wFuel) scripted s0 rs (some [])
-      let parsed := r.2.2.map showParsed
+      let r := recvRun Txdbus.Gen.Message.tables (Txdbus.Msg.wireCodec wFuel) scripted s0 fds rs
+      let parsed := r.2.2.1.map showParsed
       showState r.1 r.2.1 ++ " || " ++ (if parsed.isEmpty then "-" else " ; ".intercalate parsed)
-    | _, _ => "error bad-input"
+        ++ " || fds=" ++ showFds r.2.2.2
+    | _, _, _ => "error bad-input"
   | "R" :: c :: a :: sc :: reads =>
     match parseScript sc, mapMTR parseHex reads [] with
     | some script, some rs =>
